@@ -232,7 +232,7 @@ func TestVerifC17(t *testing.T) {
 		doc, exp, wild, depr := c17Doc(sr, true)
 		text := doc.TOML()
 		fwd := sr.Intn(3) != 0
-		stateFail := sr.Intn(10) == 0
+		stateFail := sr.Intn(5) == 0
 		r.Begin(id)
 		r.Nontrivial(text)
 		cfg, err := config.Parse(strings.NewReader(text), vEpoch)
@@ -338,7 +338,23 @@ func TestVerifC17(t *testing.T) {
 			default:
 			}
 			// L2: initialised.
-			if stateFail {
+			if stateFail && seed%2 == 0 {
+				// only the autoconfiguration read fails: the scrape must fail too
+				// (the API does not read that value)
+				h.st.AutoErr = func(int, string) error { return errors.New("verif: sysctl read failed") }
+				o, ok = c17Observe(r, id, "autoconf-read-failure", prom, h)
+				h.st.AutoErr = nil
+				if !ok {
+					bad = true
+					return
+				}
+				if o.serr == nil {
+					r.Violation(id, "state-failure-hidden@autoconf-read-failure", "with the autoconfiguration state unreadable the scrape reported no error (an invented value was exported)", det)
+					bad = true
+					return
+				}
+				r.Count("state_failure_observations", 1)
+			} else if stateFail {
 				h.st.FwdErr = func(int, string) error { return errors.New("verif: sysctl read failed") }
 				o, ok = c17Observe(r, id, "state-read-failure", prom, h)
 				h.st.FwdErr = nil
